@@ -258,7 +258,39 @@ def null_tolerant_handlers(P, R):
                      key='nulltest:%s' % h.name)
 
 
+def retire_hooks_silent(P, R, rule='C01.WMC.4'):
+    """The handlers that finish a client (the server's D and T, and the verdict functions through them) tell the modules
+    through a slot of the module record.  Whatever a module installs there runs for a client that is finished: it may
+    tidy its own state, but it may not reach the sender - a class assigned at that point writes a U line (or anything
+    else) for a client the server has already registered or dropped."""
+    em = core.emitters(P)
+    slots = P.slots()
+    n = 0
+    for f in P.unit_fns(core.sender(P).unit):
+        if not (retire_name(P, f)):
+            continue
+        for s in f.sites():
+            if s.ev['k'] == 'call' and not s.ev.get('callee') and (s.ev.get('slot') or '').startswith('iauth_module::'):
+                targets = sorted(slots.get(s.ev['slot'], ()))
+                loud = [k for k in targets if k in em]
+                n += 1
+                R.ob(rule, not loud, s, 'what the modules install in the slot %s (called when a client is finished) cannot reach the sender (installed: %s%s)' % (
+                    s.ev['slot'].split('::')[1], ', '.join(P.fns[k].name for k in targets) or 'nothing', ('; reaching the sender: ' + ', '.join(P.fns[k].name for k in loud)) if loud else ''),
+                    key='retire-hook:%s' % s.ev['slot'].split('::')[1], nontrivial=bool(targets))
+    R.floor(rule, 2, 'module slots called by the retiring handlers')
+
+
+def retire_name(P, f):
+    """f is one of the two handlers that retire a request on the server's word (D and T arms of the dispatch)."""
+    rd, disp = core.reader_dispatch(P)
+    for s, h, vs in disp:
+        if h is f and set(vs or ()) & {ord('D'), ord('T')}:
+            return True
+    return False
+
+
 def run(P, R, tier):
+    retire_hooks_silent(P, R)
     V, softfns = fmt_rules(P, R)
     verdict_discipline(P, R, V)
     who_may(P, R, V, softfns)
